@@ -305,6 +305,38 @@ def bare_wire_rule(facts, fdw, fon):
     return res
 
 
+def _d0(ck):
+    """the statement itself on small Pauli diagrams (qxlib/zxsem.py)"""
+    from .. import zxsem, minirust
+    ck.decided('D0 (evaluation, small scope) detection_webs, ordered_nodes, pw, make_bipartite, adjacency_matrix and the vector back end interpreted from their HIR (bitgauss::BitMatrix as a host) on 18 small Pauli diagrams '
+               '(closed and open, same-colour neighbours, up to 7 spiders) in three vertex numberings (boundaries first, last, interleaved) with and without pi phases: every returned web leaves the boundary edges unmarked and '
+               'satisfies the spider constraints everywhere, the webs are linearly independent, their number equals the dimension of the space of all valid webs (brute-force enumeration of every edge marking), it does not depend '
+               'on the numbering, and inputs and outputs are restored')
+    try:
+        st, bad, declined = zxsem.run_webs(ck.facts)
+    except (minirust.NoEval, minirust.Proceed) as ex:
+        ck.ob3('E3-webs', 'evaluation', None, ck.site(DW), 'the evaluator declined (%s: %s)' % (type(ex).__name__, ex))
+        return
+    clauses = [('no-panic', lambda w: w.startswith('panics')), ('inputs-outputs-restored', lambda w: w.startswith('the inputs / outputs are')),
+               ('webs-valid', lambda w: w.startswith(('a returned web is not valid', 'a web marks'))), ('webs-independent', lambda w: 'linearly dependent' in w),
+               ('webs-complete', lambda w: 'valid webs, the' in w), ('numbering-independent', lambda w: w.startswith('the number of webs depends'))]
+    for name, pred in clauses:
+        hit = [b for b in bad if pred(b[1])]
+        if hit:
+            ck.ob('E3-webs', name, False, ck.site(DW), 'on the diagram with %s: %s [%d such cases in this run]' % (hit[0][0], hit[0][1][:700], len(hit)))
+        else:
+            ck.ob('E3-webs', name, True, ck.site(DW), '', sample={'clause': name, 'cases': st['cases'], 'webs_returned_in_total': st['webs']} if name == 'webs-valid' else None)
+    other = [b for b in bad if not any(pred(b[1]) for _n, pred in clauses)]
+    if other:
+        ck.ob('E3-webs', 'other', False, ck.site(DW), '%s: %s' % other[0])
+    ck.floor('E3-webs-cases', st['cases'], 100)
+    ck.floor('E3-webs-cases-with-webs', st['with_webs'], 30)
+    if st['declined'] * 10 > max(1, st['cases']):
+        k0 = sorted(declined)[0]
+        ck.ob3('E3-webs', 'declined', None, ck.site(DW), 'the evaluator declined %d cases, e.g. %s on %s' % (st['declined'], k0, declined[k0]))
+    ck.note('E3-webs: %d cases, %d webs returned in total, %d cases with at least one web, %d declined' % (st['cases'], st['webs'], st['with_webs'], st['declined']))
+
+
 def run(ck):
     ck.decided('D6 make_bipartite re-routes every edge it removes through one fresh phase-free spider of the opposite colour on every path (it never deletes an edge), splits only same-coloured pairs, and runs first; boundaries not attached to a spider (bare wires) are not counted as boundary-adjacent spiders and are left out of the node order',
                'D3 the column offset pw() recomputes (g.inputs().len() + g.outputs().len()) is the width of the identity block: the width is the length of the very vector installed with set_outputs, unmodified in between, inputs emptied, nothing changes them before pw() runs; pw() looks nodes up as index_map[col - n_outs] over all columns',
@@ -312,7 +344,8 @@ def run(ck):
                'D5 pw(): Z spiders and X spiders mark two different edge sets over all incident edges; both -> Y, X only -> Z, Z only -> X; every basis vector becomes one returned web; set_edge/edge share the (min,max) key',
                'D1 inputs and outputs are restored: on every path to return the last set_inputs/set_outputs writes back the value saved before the first setter, each to its own setter',
                'D2 the node order handed to the block-matrix construction has the boundary vertices first whatever their ids (necessary for numbering independence: the [I|N] block and the no-output rows are positional)')
-    ck.not_decided('validity of the returned webs at every spider', 'linear independence and completeness', 'numbering independence beyond the necessary condition D2')
+    ck.not_decided('validity, independence, completeness and numbering independence beyond the evaluated small scope')
+    _d0(ck)
     f = ck.fn(DW)
     res = restore_rule(f)
     for i, (ok, n, why, sample) in enumerate(res):
